@@ -90,6 +90,16 @@ def noncanonical_count(rng):
     return 'non-minimal-count:' + which, nodeharness.frame(M.MessageHeader(0, 9, 0, 1).serialize() + body)
 
 
+def odd_addresses(rng):
+    """a well-formed peers message whose addresses are multicast / broadcast / zero / loopback IPv4 addresses"""
+    from ipaddress import IPv6Address
+    from skepticoin.networking import messages as M
+    hosts = ['224.0.0.1', '239.255.255.250', '255.255.255.255', '0.0.0.0', '127.0.0.1', '10.6.0.1']
+    rng.shuffle(hosts)
+    msg = M.PeersMessage([M.Peer(0, IPv6Address('::FFFF:%s' % h), rng.choice([2412, 1, 65535])) for h in hosts[:4]])
+    return 'odd-addresses', nodeharness.frame(M.MessageHeader(0, 9, 0, 1).serialize() + msg.serialize())
+
+
 def many_addresses(rng):
     """one well-formed peers message announcing 1,500 unknown addresses, followed by broken framing"""
     from ipaddress import IPv6Address
@@ -209,6 +219,8 @@ def run(tier, seed):
                     streams.append(corrupt(rng, payloads))
                 if greeted and sess % 60 == 7:
                     streams.append(many_addresses(rng))
+                if greeted and sess % 20 == 3:
+                    streams.append(odd_addresses(rng))
                 label = '+'.join(s[0].split(':')[0] for s in streams[1 if greeted else 0:])
                 data = b''.join(s[1] for s in streams)
                 # random chunking
